@@ -512,6 +512,7 @@ func r013(c *Ctx) {
 		return false, "the operand's context is the enclosing context, which carries the visited set shared with the other operands"
 	}
 	nSites := 0
+	cover := map[string]int{} // sites per route: rewrite, negation, and, not
 	for _, fn := range p.KetoFuncs("internal/check") {
 		top := core.Outermost(fn)
 		name := core.FuncName(fn)
@@ -542,6 +543,7 @@ func r013(c *Ctx) {
 						continue
 					}
 					nSites++
+					cover["rewrite"]++
 					ok, why := freshForAnd(ci.Common().Args[i], b, 0)
 					r.Check(ok, "R01.3", name, "context building operand via "+sc.Name(), p.Pos(ci.Pos()),
 						"when the operation is an intersection the operand is built with a visited set created for it in this iteration",
@@ -563,6 +565,7 @@ func r013(c *Ctx) {
 						continue
 					}
 					nSites++
+					cover["negation"]++
 					call := freshCallOf(ci.Common().Args[i], fresh)
 					r.Check(call != nil, "R01.3", name, "context building negated child via "+sc.Name(), p.Pos(ci.Pos()),
 						"the negated child is built with its own visited set",
@@ -591,6 +594,7 @@ func r013(c *Ctx) {
 				return
 			}
 			nSites++
+			cover[role]++
 			call := freshCallOf(ci.Common().Args[0], fresh)
 			okk := call != nil
 			why := "the operand is invoked with the caller's context and therefore with the visited set shared with the other operands"
@@ -602,8 +606,13 @@ func r013(c *Ctx) {
 				"each operand is invoked with a visited set of its own", why)
 		})
 	}
-	if nSites < 6 {
-		r.Undecide("R01.3", "", "operand sites", "", fmt.Sprintf("only %d operand context sites found (floor 6: 3 in the rewrite dispatcher, 3 in the negation builder, 1 in and, 1 in the negation closure)", nSites))
+	// every route on which an operand gets its context has a judged site: the construction of the children of
+	// a rewrite and of a negation (in the dispatcher itself, or one call of a helper that builds the child with
+	// the context it is given), and the invocation of the operands of "and" and of "not"
+	for _, route := range []string{"rewrite", "negation", "and", "not"} {
+		if cover[route] == 0 {
+			r.Undecide("R01.3", "", "operand sites", "", fmt.Sprintf("no operand context site found on the %s route (%d sites in all)", route, nSites))
+		}
 	}
 	if len(fresh) == 0 {
 		r.Undecide("R01.3", "", "fresh visited set function", "", "no function in internal/x/graph unconditionally installs a newly allocated visited set")
